@@ -179,6 +179,13 @@ def items_all():
     add("oneparseerr", Item("E", base_variants(), metas=[EM("pety", "PErr")]))
     add("oneparseerr", Item("E", base_variants(), metas=[EM("pefn", "perr_a"), EM("aci")]))
     add("oneparseerr-default", Item("E", base_variants() + [Variant("D", "tuple", [Field("String")], [DEFAULT])], metas=[EM("pefn", "perr_a")]))
+    # integer property literals in every spelling and of every size are SUPPORTED literals for the derive (a literal outside i64 is rustc's
+    # business: `literal out of range`); the macro must neither reject them itself nor panic while reading them
+    ints = [("i", 9223372036854775807), ("i", -9223372036854775808), ("i", 9223372036854775808), ("i", 18446744073709551615),
+            ("i", -9223372036854775809), ("i", 18446744073709551615, "0xFFFF_FFFF_FFFF_FFFF"), ("i", 1000, "1_000"), ("i", 7, "7i64"), ("i", 5, "0b101"),
+            ("i", 255, "0o377"), ("i", 340282366920938463463374607431768211455), ("i", 7, "7u8")]
+    for j in range(0, len(ints), 3):
+        add("ok-intprops", Item("E", [Variant("A", "unit", [], [props([("k%d" % q, iv) for q, iv in enumerate(ints[j:j + 3])])]), Variant("B", "unit")]))
     # 12 unsupported property literal
     for src in ("1.5", "'c'", "b\"bytes\"", "2.0e3", "b'x'"):
         for pos in (0, 2):
